@@ -964,6 +964,32 @@ def gen_fs_rollover(rng, tier):
             h.check().full().reopen().check().full()
             h.a().check()
             cases.append(h.case("rollover-limit%d-v%d" % (limit, variant)))
+        # a snapshot pointer raises the split-off point of the OPEN file, the file is then closed by the
+        # rollover, later files follow; cuts into the TOP part of that closed file (its end index must be
+        # start + number of records written, whatever was split off below)
+        for where in ("end-1", "top", "top-edge") if tier == "quick" else ("end-1", "top", "top-edge", "top", "top"):
+            for install in (True, False):
+                h = FsHist(rng, limit=limit)
+                h.b(rng.randrange(per_file // 2, per_file - 20)).check()
+                p = rng.randrange(h.first + per_file // 4, h.end - 2)
+                h.ptr_at(p, rng.randrange(1, 99), install=install)
+                h.check()
+                end_f = h.first + per_file             # first index of the second file
+                while h.end < end_f + rng.randrange(3, 60):
+                    h.b(rng.randrange(1, 50))
+                h.check().full()
+                if rng.random() < 0.4:
+                    h.reopen().check().full()
+                off = p - h.first                      # records split off below the pointer
+                cut = {"end-1": end_f - 1, "top": rng.randrange(end_f - off, end_f), "top-edge": end_f - off}[where]
+                lo, e = h.can_cut()
+                cut = max(lo, min(cut, e))
+                h.d(cut).check(cut).full()
+                if rng.random() < 0.5:
+                    h.reopen().check(cut).full()
+                h.a().check(cut).b(rng.randrange(1, 30)).check()
+                h.full().reopen().check().full()
+                cases.append(h.case("rollover-after-pointer-limit%d-%s-%s" % (limit, where, "install" if install else "build")))
     return cases
 
 
